@@ -48,6 +48,8 @@ def ser(p, plain=False):
     if t == 'group':
         ms = ' '.join(f'{d} {r}' for d, r in p[1])
         return f'group {len(p[1])} {ms} {ser(p[2], plain)}'
+    if t == 'groupx':
+        return 'groupx'        # outside the model's language: judged by the oracle only
     raise ValueError(p)
 
 
@@ -80,6 +82,13 @@ def show(p):
     if t == 'group':
         ms = ', '.join(f'member(sleep {d}, dies {r} after cancel)' for d, r in p[1])
         return f'TaskGroup[{ms}]{{ {show(p[2])} }}'
+    if t == 'groupx':
+        ms = ', '.join(
+            ('daemon ' if m[2] else '') + 'member(' + ('handled timeout; ' if m[3] else '') +
+            (show(m[4]) if m[4] is not None else f'sleep {m[0]}') + f', dies {m[1]} after cancel)'
+            for m in p[3])
+        tail = '; await g.join()' if p[2] == 'join' else ''
+        return f'TaskGroup(wait={p[1]})[{ms}]{{ {show(p[4])}{tail} }}'
 
 
 def subprogs(p):
@@ -92,6 +101,8 @@ def subprogs(p):
         return [p[2], p[3]]
     if t == 'group':
         return [p[2]]
+    if t == 'groupx':
+        return [p[4]] + [m[4] for m in p[3] if m[4] is not None]
     return []
 
 
@@ -104,7 +115,25 @@ def has_try(p):
 
 
 def has_group(p):
-    return any_node(p, lambda q: q[0] == 'group')
+    return any_node(p, lambda q: q[0] in ('group', 'groupx'))
+
+
+def total_react(p):
+    """sum of the reaction times of all group members anywhere in `p`"""
+    own = 0
+    if p[0] == 'group':
+        own = sum(m[1] for m in p[1])
+    elif p[0] == 'groupx':
+        own = sum(m[1] for m in p[3])
+    return own + sum(total_react(q) for q in subprogs(p))
+
+
+def to_json(p):
+    return [to_json(x) if isinstance(x, (tuple, list)) else x for x in p]
+
+
+def from_json(p):
+    return tuple(from_json(x) if isinstance(x, list) else x for x in p)
 
 
 def raises(p, kinds):
@@ -340,7 +369,7 @@ class Impl:
                 if self.cls(e) in p[1]:
                     return await self.ex(p[3], evs, stack)
                 raise
-        if t == 'group':
+        if t in ('group', 'groupx'):
             return await self.ex_group(p, evs, stack)
         if t == 'block':
             ig, rel, tt, body, form = p[1:]
@@ -412,33 +441,64 @@ class Impl:
             return out
 
     async def ex_group(self, p, evs, stack):
-        """TaskGroup(wait=all) as a context manager: members sleep `dur`; a cancelled member needs
-        `react` more before it dies"""
+        """('group', ((dur, react), ..), body): TaskGroup() as a context manager, members sleep
+        `dur`; a cancelled member needs `react` more before it is dead.
+        ('groupx', policy, mode, ((dur, react, daemon, had_timeout, sub), ..), body): any wait
+        policy, daemons, members with an earlier handled timeout of their own, members that run
+        a program (`sub`, e.g. another group: the member is the joiner of a subgroup); mode
+        'join' calls g.join() explicitly after the body instead of leaving through __aexit__."""
         c = self.curio
         loop = asyncio.get_event_loop()
-        _, members, body = p
-        rec = {'kind': 'group', 'node': p, 'parents': stack, 'entered': int(loop.time())}
+        if p[0] == 'group':
+            policy, mode, body = 'all', 'cm', p[2]
+            members = [(d, r, False, False, None) for d, r in p[1]]
+        else:
+            _, policy, mode, members, body = p
+        wait = {'all': all, 'any': any, 'object': object}[policy]
+        mrecs = [{'dur': m[0], 'react': m[1], 'daemon': bool(m[2]), 'cancel_seen': None,
+                  'finished': None} for m in members]
+        rec = {'kind': 'group', 'node': p, 'parents': stack, 'entered': int(loop.time()),
+               'members': mrecs, 'policy': policy}
         tasks = []
 
-        async def member(dur, react):
+        async def member(mrec, dur, react, had, sub):
             try:
-                await c.sleep(dur)
-            except c.CancelledError:
-                if react:
-                    await c.sleep(react)
-                raise
-            return dur
+                try:
+                    if had:
+                        # a timeout of the member's own that expired and was handled earlier
+                        async with c.ignore_after(0):
+                            await c.sleep(GU)
+                    if sub is not None:
+                        return await self.ex(sub, evs, ())
+                    await c.sleep(dur)
+                    return dur
+                except c.CancelledError:
+                    if react:
+                        await c.sleep(react)
+                    raise
+            finally:
+                mrec['finished'] = int(loop.time())
 
         def close(r):
-            rec.update(r=r, t=int(loop.time()), left=sum(1 for m in tasks if not m.done()),
-                       cancelled=[m.done() and m.cancelled() for m in tasks])
+            rec.update(r=r, t=int(loop.time()), left=sum(1 for m in tasks if not m.done()))
             rec['tasks'] = tasks
             evs.append(rec)
+
+        async def spawn_all(g):
+            for mrec, (dur, react, daemon, had, sub) in zip(mrecs, members):
+                tasks.append(await g.spawn(member(mrec, dur, react, had, sub), daemon=bool(daemon)))
         try:
-            async with c.TaskGroup() as g:
-                for dur, react in members:
-                    tasks.append(await g.spawn(member, dur, react))
-                val = await self.ex(body, evs, stack)
+            if mode == 'join':
+                g = c.TaskGroup(wait=wait)
+                await spawn_all(g)
+                try:
+                    val = await self.ex(body, evs, stack)
+                finally:
+                    await g.join()
+            else:
+                async with c.TaskGroup(wait=wait) as g:
+                    await spawn_all(g)
+                    val = await self.ex(body, evs, stack)
         except BaseException as e:
             close(self.cls(e))
             raise
@@ -455,6 +515,17 @@ class Impl:
         async def top():
             loop = asyncio.get_event_loop()
             timers = Timers(loop)
+
+            cancel_log = {}
+
+            class LogTask(asyncio.Task):
+                def cancel(self, msg=None):
+                    # only requests made by code running in a task (a group cancelling its
+                    # members): timer callbacks and the harness's own external cancel are not
+                    if asyncio.current_task(loop) is not None:
+                        cancel_log.setdefault(self, []).append(loop.time())
+                    return super().cancel(msg)
+            loop.set_task_factory(lambda lp, coro, **kw: LogTask(coro, loop=lp, **kw))
             evs = []
             phase = {'done': False}
             delivered = []
@@ -478,7 +549,6 @@ class Impl:
                 obs['dl'] = len(dl) if isinstance(dl, list) else (0 if nblocks == 0 else '?')
                 obs['evs'] = evs
                 obs['whens'] = sorted({int(x['when']) for x in timers.recs})
-                obs['left_groups'] = [e for e in evs if e['kind'] == 'group']
                 obs['stray'] = None
                 if follow_on:
                     # follow-on code of the same task: a timer left behind for one of the
@@ -493,8 +563,13 @@ class Impl:
                     obs['armed_after'] = obs['armed']
                 for e in evs:
                     if e['kind'] == 'group':
-                        e['left_later'] = sum(1 for m in e['tasks'] if not m.done())
-                        for m in e.pop('tasks'):
+                        for mrec, m in zip(e['members'], e.pop('tasks')):
+                            # when somebody first called cancel() on the member (task class of
+                            # the harness's own loop)
+                            times = cancel_log.get(m, [])
+                            mrec['cancel_seen'] = int(times[0]) if times else None
+                            mrec['done'] = m.done()
+                            mrec['cancelled'] = m.done() and m.cancelled()
                             m.cancel()
                 if exc is not None:
                     raise exc
